@@ -9,6 +9,7 @@ From E57 Require Import Base.Prelude Model.Device Model.PagedReader Model.Record
 From Coq Require Import Permutation.
 From E57 Require Import Base.Floats Model.Meta Model.MetaFile Model.XmlTree Model.XmlParse Model.XmlExtract
   Spec.FileSpecXml Spec.XmlRender Proofs.SpecXml Proofs.SpecXmlExample Proofs.SpecTypeDefaults Proofs.SpecTypeDefaults2.
+From E57 Require Import Model.XmlDepth Model.ReaderFull Spec.MetaTree Spec.XeMetaOk Spec.XgWriterOk Proofs.SpecMetaTree.
 
 (** For EVERY file the independent, specification-driven encoder can emit - every order of
     blob and compressed-vector sections, the XML before, between or after them, any extra
@@ -127,11 +128,55 @@ Theorem C03_any_layout_any_rendering : forall (pf64 pf32 : xstr -> option N) (fd
     = (d', Ok (rs, mkHeader 1 0 (len f) (phys_of_log (xml_start 48 fl (len x))) (len x) 1024, x)) /\
     pr_inv 1024 f rs /\
     xml_parse x = ParseOk t /\
-    xml_meta pf64 pf32 fdiv x = Some m /\
+    FileSpecXml.xml_meta pf64 pf32 fdiv x = Some m /\
     forall d, In d (meta_descriptors m) ->
       exists cnt, In (d, cnt) (combine (layout_descriptors 48 fl (len x)) (layout_contents fl)) /\
                   desc_reads rs d cnt.
 Proof. exact spec_file_read_any_rendering. Qed.
+
+(** The top-level statement, free of hypotheses about the tree and the extractor.  For EVERY
+    metadata value [m] the two XML slices accept ([writer_meta_ok], [meta_xml_ok]: its tree is
+    renderable, slice xg; [meta_ok], [float_oracle_ok]: extraction inverts [tree_of], slice xe),
+    every rendering [c] of its tree, every file layout [fl] (section order, XML position,
+    padding, every legal packetisation of every point cloud) whose placements [m] states: the
+    FULL reader ([reader_new]: header, pages, UTF-8 check, nesting-depth guard, parser,
+    extractors) returns exactly the reader's view of [m] and, for every descriptor in it, after
+    any page-layer history, exactly the encoded points / blob bytes.  Remaining hypotheses: the
+    rendering is UTF-8 (a boolean on the bytes; that [render] keeps UTF-8 strings UTF-8 is not
+    proved), the placement equation, the documented XML size limit, the u64 size bound. *)
+Theorem C03_any_producer :
+  forall (pf64 pf32 : xstr -> option N) (fdiv : N -> Z -> N)
+         (fl : file_layout) (m : file_meta) (c : render_choices),
+  file_layout_ok fl = true ->
+  writer_meta_ok m = true -> meta_xml_ok m = true ->
+  XeMetaOk.meta_ok m = true -> float_oracle_ok pf64 pf32 m = true ->
+  let x := render c (MetaTree.tree_of m) in
+  forallb (fun b => b <? 256) x && utf8_valid x = true ->
+  Permutation (meta_descriptors m) (layout_descriptors 48 fl (len x)) ->
+  len x <= MAX_XML_SIZE ->
+  len (spec_encode_file fl x) < 2 ^ 64 ->
+  let f := spec_encode_file fl x in
+  exists rs d',
+    reader_new pf64 pf32 fdiv (dev_init f None)
+    = (d', Ok (rs, mkHeader 1 0 (len f) (phys_of_log (xml_start 48 fl (len x))) (len x) 1024, x, reader_view m)) /\
+    pr_inv 1024 f rs /\
+    forall d, In d (meta_descriptors (reader_view m)) ->
+      exists cnt, In (d, cnt) (combine (layout_descriptors 48 fl (len x)) (layout_contents fl)) /\
+                  desc_reads rs d cnt.
+Proof. exact spec_file_read_any_producer. Qed.
+
+Theorem C03_any_producer_instance : forall c, c = writer_choices \/ c = RenderInstance.other_choices ->
+  let m := RenderInstance.meta2 in
+  let x := render c (MetaTree.tree_of m) in
+  let f := spec_encode_file RenderInstance.fl x in
+  exists rs d',
+    reader_new XmlInstance.pf XmlInstance.pf XmlInstance.fd (dev_init f None)
+    = (d', Ok (rs, mkHeader 1 0 (len f) (phys_of_log (xml_start 48 RenderInstance.fl (len x))) (len x) 1024, x, reader_view m)) /\
+    pr_inv 1024 f rs /\
+    forall d, In d (meta_descriptors (reader_view m)) ->
+      exists cnt, In (d, cnt) (combine (layout_descriptors 48 RenderInstance.fl (len x)) (layout_contents RenderInstance.fl)) /\
+                  desc_reads rs d cnt.
+Proof. exact spec_file_read_any_producer_instance. Qed.
 
 (** Independence of the rendering, as an equality between any two choices: same tree, same
     metadata, same descriptors; with the XML as the last entry no placement depends on the
@@ -140,7 +185,7 @@ Theorem C03_rendering_independent : forall (pf64 pf32 : xstr -> option N) (fdiv 
     (fl : file_layout) (t : xdoc) (m : file_meta) (c1 c2 : render_choices),
   wf_doc t = true -> extract_all pf64 pf32 fdiv t = Ok m ->
   xml_parse (render c1 t) = xml_parse (render c2 t) /\
-  xml_meta pf64 pf32 fdiv (render c1 t) = xml_meta pf64 pf32 fdiv (render c2 t) /\
+  FileSpecXml.xml_meta pf64 pf32 fdiv (render c1 t) = FileSpecXml.xml_meta pf64 pf32 fdiv (render c2 t) /\
   dx_of pf64 pf32 fdiv (render c1 t) = dx_of pf64 pf32 fdiv (render c2 t) /\
   (forall l1, fl = l1 ++ [FXml] -> filter is_xml l1 = [] ->
      layout_descriptors 48 fl (len (render c1 t)) = layout_descriptors 48 fl (len (render c2 t))).
@@ -157,7 +202,7 @@ Theorem C03_any_rendering_instance : forall c, c = writer_choices \/ c = RenderI
     = (d', Ok (rs, mkHeader 1 0 (len f) (phys_of_log (xml_start 48 RenderInstance.fl (len x))) (len x) 1024, x)) /\
     pr_inv 1024 f rs /\
     xml_parse x = ParseOk (MetaTree.tree_of RenderInstance.meta2) /\
-    xml_meta XmlInstance.pf XmlInstance.pf XmlInstance.fd x = Some RenderInstance.meta2' /\
+    FileSpecXml.xml_meta XmlInstance.pf XmlInstance.pf XmlInstance.fd x = Some RenderInstance.meta2' /\
     forall d, In d (meta_descriptors RenderInstance.meta2') ->
       exists cnt, In (d, cnt) (combine (layout_descriptors 48 RenderInstance.fl (len x)) (layout_contents RenderInstance.fl)) /\
                   desc_reads rs d cnt.
@@ -222,3 +267,5 @@ Print Assumptions C03_default_scale.
 Print Assumptions C03_default_offset.
 Print Assumptions C03_default_precision.
 Print Assumptions C03_float_limits_irrelevant.
+Print Assumptions C03_any_producer.
+Print Assumptions C03_any_producer_instance.
